@@ -611,28 +611,31 @@ class Selector:
 
 
 def where_rows(I, mask):
-    """torch.where(mask) for a mask of shape [N, 1...]/[N]: returns tuple of index tensors"""
+    """torch.where(mask): one index tensor per mask axis; a strictly increasing (row-major) enumeration
+    sel: [0,M) -> selected positions, with the completeness inverse pos"""
     m = lift(mask)
     if m.dtype != "bool":
         m = tlib.ew1(m, lambda x: zbool(x), "bool")
     if m.rank == 0:
         raise Unsupported("where on 0-d tensor")
-    for d in m.shape[1:]:
-        if not d.is_one:
-            c = d.concrete()
-            if c is None and I.ctx.entails(d.size_term() == 1):
-                continue
-            raise Unsupported("torch.where(mask) with more than one non-trivial axis")
-    d0 = m.shape[0]
-    nf = len(d0.factors)
-    tail = [zero_index(d) for d in m.shape[1:]]
+    dims = list(m.shape)
+    allf = [f for d in dims for f in d.factors]
+    nf = len(allf)
+    total = None
+    for d in dims:
+        total = d.size_term() if total is None else total * d.size_term()
+
+    def split(comps):
+        out, p = [], 0
+        for d in dims:
+            out.append(tuple(comps[p : p + len(d.factors)])); p += len(d.factors)
+        return out
 
     def mask_at(comps):
-        return m.at([tuple(comps)] + tail)
+        return m.at(split(comps))
 
-    cN = d0.concrete()
     M = z3.Int(core.fresh_name("nsel"))
-    I.ctx.assume(z3.And(M >= 0, M <= d0.size_term()))
+    I.ctx.assume(z3.And(M >= 0, M <= total))
     fs = [z3.Function(core.fresh_name(f"sel{p}"), z3.IntSort(), z3.IntSort()) for p in range(nf)]
     posf = z3.Function(core.fresh_name("selpos"), *([z3.IntSort()] * max(nf, 1) + [z3.IntSort()]))
 
@@ -640,14 +643,17 @@ def where_rows(I, mask):
         j = zint(j)
         comps = tuple(f(j) for f in fs)
         inr = z3.And(j >= 0, j < M)
-        facts = [z3.And(c >= 0, c < zint(f)) for c, f in zip(comps, d0.factors)]
+        facts = [z3.And(c >= 0, c < zint(f)) for c, f in zip(comps, allf)]
         facts.append(mask_at(comps))
         if nf:
             facts.append(posf(*comps) == j)
         I.ctx.axiom(z3.Implies(inr, z3.And(facts)))
         return comps
 
-    sel = Selector(d0, M, comps_fn, mask_at)
+    sel = Selector(dims[0], M, comps_fn, mask_at)
+    sel.src_dims = dims
+    sel.split = split
+    sel.mask_src = None
 
     def complete(comps):
         """mask(r) => r is enumerated: 0 <= pos(r) < M and sel(pos(r)) = r"""
@@ -657,39 +663,44 @@ def where_rows(I, mask):
         back = [f(p) == zint(c) for f, c in zip(fs, comps)]
         return z3.Implies(mask_at(comps), z3.And(p >= 0, p < M, *back))
 
+    def pos(comps):
+        if not nf:
+            return z3.IntVal(0)
+        I.ctx.axiom(complete(comps))
+        return posf(*[zint(c) for c in comps])
+
     sel.complete = complete
+    sel.pos = pos
     sel.fs = fs
 
     def mono(j1, j2):
-        """strictly increasing in row-major order (for single-factor axes)"""
         if nf == 1:
             return z3.Implies(z3.And(0 <= j1, j1 < j2, j2 < M), fs[0](j1) < fs[0](j2))
         return z3.BoolVal(True)
 
     sel.mono = mono
-    # cheap global facts
     if nf == 0:
         I.ctx.assume(z3.If(mask_at(()), M == 1, M == 0))
     I.ctx.ghost.setdefault("selectors", []).append(sel)
-    idx_t = _selector_tensor(I, sel)
-    outs = [idx_t]
-    for _ in m.shape[1:]:
-        z = Tensor(STensor([Dim([M])], lambda idx: z3.IntVal(0), "int"))
-        outs.append(z)
+    outs = []
+    for ax, d in enumerate(dims):
+        outs.append(_selector_tensor(I, sel, axis=ax))
     return tuple(outs)
 
 
-def _selector_tensor(I, sel, count=None, offset=None):
+def _selector_tensor(I, sel, count=None, offset=None, axis=0):
     M = sel.count if count is None else count
 
     def fn(idx):
         j = idx[0][0] if idx[0] else 0
         if offset is not None:
             j = zint(j) + offset
-        return flat_index(sel.src_dim, sel.comps(j))
+        per_axis = sel.split(sel.comps(j))
+        return flat_index(sel.src_dims[axis], per_axis[axis])
 
     t = Tensor(STensor([Dim([M])], fn, "int", "where"))
     t.meta["sel"] = (sel, M, offset)
+    t.meta["sel_axis"] = axis
     return t
 
 
@@ -742,14 +753,28 @@ def _slice_axis(I, d, sl):
     lo_t = clampb(lo, z3.IntVal(0))
     hi_t = clampb(hi, N)
     size = z3.simplify(z3.If(hi_t > lo_t, hi_t - lo_t, z3.IntVal(0)))
-    # try to simplify under the path condition
-    for cand in ([zint(hi)] if hi is not None and lo is None else []) + [N]:
-        if I.ctx.entails(size == cand):
-            size = z3.simplify(cand)
-            break
     lo_s = z3.simplify(lo_t)
-    if lo is None:
-        lo_s = z3.IntVal(0)
+    # candidate closed forms, accepted when entailed by the path condition
+    cands = []
+    lo_c = 0 if lo is None else (lo if isinstance(lo, int) else None)
+    if lo_c is not None and lo_c >= 0:
+        if hi is None:
+            cands.append((N - lo_c, z3.IntVal(lo_c)))
+        elif isinstance(hi, int) and hi < 0:
+            cands.append((N + hi - lo_c, z3.IntVal(lo_c)))
+        elif isinstance(hi, int):
+            cands.append((z3.IntVal(hi - lo_c), z3.IntVal(lo_c)))
+        else:
+            cands.append((zint(hi) - lo_c, z3.IntVal(lo_c)))
+    if lo is not None and not isinstance(lo, int) and hi is None:
+        cands.append((N - zint(lo), zint(lo)))
+    if lo is not None and hi is not None and not (isinstance(lo, int) and isinstance(hi, int)):
+        cands.append((zint(hi) - zint(lo), zint(lo)))
+    cands.append((N, z3.IntVal(0)))
+    for cs, cl in cands:
+        if I.ctx.entails(z3.And(size == cs, lo_s == cl)):
+            size, lo_s = z3.simplify(cs), z3.simplify(cl)
+            break
     nd = dim_of(size)
     if len(nd.factors) > 1:
         nd = Dim([size]) if not isinstance(size, int) else nd
@@ -783,6 +808,21 @@ def getitem(I, t, key):
         # a boolean mask may cover several axes
         if not (len(key) == 1 and isinstance(key[0], Tensor)):
             raise IN.RaisedEx("IndexError", "too many indices for tensor", I.ctx.loc)
+    # tuple of index tensors produced by ONE torch.where call covering the leading axes
+    if len(key) >= 2 and all(isinstance(k, Tensor) and "sel" in k.meta for k in key) and all(k.meta["sel"][0] is key[0].meta["sel"][0] for k in key) and [k.meta.get("sel_axis") for k in key] == list(range(len(key))):
+        sel, M, off = key[0].meta["sel"]
+        m_ax = len(key)
+        if len(sel.src_dims) == m_ax and all(sd.same(ad) for sd, ad in zip(sel.src_dims, a.shape[:m_ax])):
+            rest = a.shape[m_ax:]
+
+            def fn_ms(idx):
+                j = idx[0][0] if idx[0] else 0
+                jj = zint(j) + off if off is not None else j
+                return a.at(sel.split(sel.comps(jj)) + list(idx[1:]))
+
+            out = Tensor(STensor([Dim([M])] + rest, fn_ms, a.dtype))
+            out.meta["gather"] = (t, (sel, M, off))
+            return out
     # plan per source axis
     plan = []  # entries: ('new',) | ('keep', ax, dim, mapper) | ('fix', ax, comps) | ('adv', ax, kind, payload)
     ax = 0
@@ -943,39 +983,59 @@ def setitem(I, t, key, v):
         p = [i for i, k in enumerate(key) if k is Ellipsis][0]
         n_real = sum(1 for k in key if k is not None and k is not Ellipsis)
         key = key[:p] + [slice(None)] * (a.rank - n_real) + key[p + 1 :]
-    # selector / mask on axis 0
+    # masked assignment: a[mask] = v, a[sel] = v, a[where-tuple] = v
+    sel = None
+    naxes = None
     if len(key) >= 1 and isinstance(key[0], Tensor) and all(isinstance(k, slice) and k == slice(None) for k in key[1:]):
         kt = key[0]
         if kt.val.dtype == "bool":
-            m = kt.val
-            if m.rank > a.rank:
-                raise IN.RaisedEx("IndexError", "too many indices", I.ctx.loc)
-            mask_at = lambda idx: m.at(idx[: m.rank])
-            count = None
-            sel = None
             if isinstance(v, Tensor) and "gather" in v.meta and getattr(v.meta["gather"][1][0], "mask_src", None) is kt:
-                sel = v.meta["gather"][1][0]  # a[mask] = b[mask] with the SAME mask object
-        elif "sel" in kt.meta and kt.meta["sel"][0].src_dim.same(a.shape[0]) and kt.meta["sel"][2] is None and z3.eq(
-            zint(kt.meta["sel"][1]), zint(kt.meta["sel"][0].count)
-        ):
+                sel = v.meta["gather"][1][0]
+            else:
+                sel = where_rows(I, kt)[0].meta["sel"][0]
+                sel.mask_src = kt
+            naxes = kt.val.rank
+        elif "sel" in kt.meta and kt.meta["sel"][2] is None and z3.eq(zint(kt.meta["sel"][1]), zint(kt.meta["sel"][0].count)) and len(kt.meta["sel"][0].src_dims) >= 1:
             sel = kt.meta["sel"][0]
-            mask_at = lambda idx: sel.mask_fn(idx[0])
+            # a single index tensor of a (N,1)-style mask: trailing mask axes must be trivial
+            if not all(d.is_one for d in sel.src_dims[1:]):
+                raise Unsupported("assignment through one index tensor of a multi-axis where()")
+            naxes = 1
         else:
             raise Unsupported("tensor-index assignment with a general index tensor")
-        if isinstance(v, Tensor) and "gather" in v.meta and sel is not None and v.meta["gather"][1][0] is sel:
+    elif len(key) >= 2 and all(isinstance(k, Tensor) and "sel" in k.meta for k in key) and all(k.meta["sel"][0] is key[0].meta["sel"][0] for k in key) and [k.meta.get("sel_axis") for k in key] == list(range(len(key))):
+        sel = key[0].meta["sel"][0]
+        naxes = len(key)
+        if not z3.eq(zint(key[0].meta["sel"][1]), zint(sel.count)) or key[0].meta["sel"][2] is not None:
+            raise Unsupported("assignment through a sliced where() tuple")
+    if sel is not None:
+        mdims = sel.src_dims[:naxes] if naxes <= len(sel.src_dims) else sel.src_dims
+        for sd, ad in zip(mdims, a.shape[:naxes]):
+            if not sd.same(ad):
+                raise IN.RaisedEx("IndexError", "The shape of the mask does not match the shape of the indexed tensor", I.ctx.loc)
+        rest = a.shape[naxes:]
+        pad = [() for _ in range(len(sel.src_dims) - naxes)]
+
+        def mask_at(idx):
+            return sel.mask_fn([c for comp in list(idx[:naxes]) + pad for c in comp])
+
+        if isinstance(v, Tensor) and "gather" in v.meta and v.meta["gather"][1][0] is sel and v.meta["gather"][0].val.rank == a.rank:
             src = v.meta["gather"][0].val
-            if src.rank != a.rank:
-                raise Unsupported("gather assignment rank mismatch")
             val_at = lambda idx: src.at(idx)
         else:
             vv = lift(v)
             if vv.numel_concrete() == 1:
                 z = [zero_index(d) for d in vv.shape]
                 val_at = lambda idx: vv.at(z)
-            elif vv.rank == a.rank - 1 + 0 and False:
-                pass
             else:
-                raise Unsupported("masked assignment of a non-scalar, non-gathered value")
+                vb = tlib.broadcast_to(I, vv, [Dim([sel.count])] + rest)
+                if len(vb.shape) != 1 + len(rest):
+                    raise IN.RaisedEx("RuntimeError", "shape mismatch: value tensor cannot be broadcast to indexing result", I.ctx.loc)
+
+                def val_at(idx):
+                    comps = [c for comp in list(idx[:naxes]) + pad for c in comp]
+                    return vb.at([(sel.pos(comps),)] + list(idx[naxes:]))
+
         old = a
         dt = a.dtype
         t.val = STensor(a.shape, lambda idx: z3.If(mask_at(idx), core.conv(val_at(idx), dt), old.at(idx)), dt)
